@@ -300,9 +300,9 @@ var (
 	reQNameWS       = regexp.MustCompile(`([\w.#*-])[ \t\r\n]*:[ \t\r\n]*([\w#*])`)
 	reNumWS         = regexp.MustCompile(`(\d)[ \t\r\n]*\.[ \t\r\n]*(\d)`)
 	reNumWS2        = regexp.MustCompile(`(^|[^\w.)\]])\.[ \t\r\n]+(\d)`)
-	reAxisMangled   = regexp.MustCompile(`\b(?:preceding|following)[._0-9]sibling\b|\b(?:ancestor|descendant)(?:[._0-9]or[._0-9-]self|-or[._0-9]self)\b`)
+	reAxisMangled   = regexp.MustCompile(`\b(?:preceding|following)[._0-9]sibling\b|\b(?:ancestor|descendant)(?:[._0-9]or[._0-9-]self|-or[._0-9]self)\b|\bprocessing[._0-9]instruction\b`)
 	reVarExtraColon = regexp.MustCompile(`(\$[\pL\pN\pM_#.·-]+:[\pL\pN\pM_#.·-]+)(?::[\pL\pN\pM_#.·:-]*)+`)
-	reSlashStar     = regexp.MustCompile(`(^|[(\[,=<>+|-]|and|or|div|mod)[ \t\r\n]*/[ \t\r\n]*\*`)
+	reSlashStar     = regexp.MustCompile(`(^|[(\[,=<>+|*-]|and|or|div|mod)[ \t\r\n]*/[ \t\r\n]*\*`)
 )
 
 // c08Rewrites are string-level rewrites for strings the reference rejects but the library accepts.
@@ -334,7 +334,14 @@ var c08Rewrites = []struct {
 		// the generated lexer takes the longest match: in \\' the second backslash may be the one that hides the quote
 		return strings.NewReplacer(`\'`, "B", `\"`, "B").Replace(s)
 	}},
-	{"grammar-axis-name-lexing", func(s string) string { return reAxisMangled.ReplaceAllString(s, "self") }},
+	{"grammar-axis-name-lexing", func(s string) string {
+		return reAxisMangled.ReplaceAllStringFunc(s, func(m string) string {
+			if strings.HasPrefix(m, "processing") {
+				return "processing-instruction"
+			}
+			return "self"
+		})
+	}},
 	{"grammar-variable-repetition", func(s string) string {
 		return reVarExtraColon.ReplaceAllString(s, "$1")
 	}},
@@ -405,8 +412,29 @@ func c08Judge(r *evid.Run, idx int, class, rendering, s string, genAST xast.Expr
 			mv, me := c08Model(ast2)
 			// a literal in which backslash hides a quote has no counterpart in XPath 1.0 whose value the
 			// library's could be compared with: the counterfactual parse alone attributes the acceptance
-			if rw.id == "grammar-backslash-literal" || c08Agree(lib, mv, me, false) == "" || evalFails(lib) || hasFnStepWithArgs(ast2) || hasNamespaceAxisNameTest(ast2) {
+			if rw.id == "grammar-backslash-literal" || (rw.id == "grammar-axis-name-lexing" && strings.Contains(s, "processing")) || c08Agree(lib, mv, me, false) == "" || evalFails(lib) || hasFnStepWithArgs(ast2) || hasNamespaceAxisNameTest(ast2) {
 				if known(ids, what) {
+					sig("known")
+					return
+				}
+			}
+		}
+		// '/ *' read as (/) * in one place only: rewrite each occurrence on its own
+		if locs := reSlashStar.FindAllStringIndex(s, -1); len(locs) > 1 {
+			for _, loc := range locs {
+				m := s[loc[0]:loc[1]]
+				s2 := s[:loc[0]] + m[:strings.Index(m, "/")] + "(/)*" + s[loc[1]:]
+				ast2, perr2 := refparse.Parse(s2)
+				ids := []string{"grammar-slash-star"}
+				if perr2 != nil {
+					ast2, perr2 = refparse.ParseQ(s2, refparse.Quirks{KeywordOperators: true})
+					ids = append(ids, "grammar-reserved-names")
+				}
+				if perr2 != nil {
+					continue
+				}
+				mv, me := c08Model(ast2)
+				if (c08Agree(lib, mv, me, false) == "" || evalFails(lib) || hasFnStepWithArgs(ast2) || hasNamespaceAxisNameTest(ast2)) && known(ids, what) {
 					sig("known")
 					return
 				}
@@ -433,7 +461,7 @@ func c08Judge(r *evid.Run, idx int, class, rendering, s string, genAST xast.Expr
 				}
 				if perr2 == nil {
 					mv, me := c08Model(ast2)
-					if seenID["grammar-backslash-literal"] || c08Agree(lib, mv, me, false) == "" || evalFails(lib) || hasFnStepWithArgs(ast2) || hasNamespaceAxisNameTest(ast2) {
+					if seenID["grammar-backslash-literal"] || (seenID["grammar-axis-name-lexing"] && strings.Contains(s, "processing")) || c08Agree(lib, mv, me, false) == "" || evalFails(lib) || hasFnStepWithArgs(ast2) || hasNamespaceAxisNameTest(ast2) {
 						if known(ids, what) {
 							sig("known")
 							return
@@ -602,7 +630,7 @@ func c08Case(r *evid.Run, tier string, idx int, g *rng.R) {
 	_, _, targets := vocab(d)
 	elems, attrs := c08Vocab(g, d)
 	cfg := &xast.Cfg{Elems: elems, Attrs: attrs, Prefixes: []string{"p", "q", "r", "self", "node", "child"}, Targets: targets, Axes: xast.Axes, MaxSteps: 3, MaxDepth: 3, PredPct: 35, Abbrev: 50,
-		Unions: true, Filters: true, AbsInPred: true, FnSteps: true, StrLits: []string{"", "a", "1", " 2 ", "é", "x y", "it's", "q\"q", "a\\nb", "C:\\\\new", "t\\tt", "a\\b", "x\\", "a\\rb"}, NumLits: []float64{0, 1, 2, 0.5, 1.5, 100, 12.25},
+		Unions: true, Filters: true, AbsInPred: true, FnSteps: true, StrLits: []string{"", "a", "1", " 2 ", "é", "x y", "it's", "q\"q", "a\\nb", "C:\\\\new", "t\\tt", "a\\b", "a\\rb"}, NumLits: []float64{0, 1, 2, 0.5, 1.5, 100, 12.25},
 		Vars: []xast.VarSpec{{Local: "n", T: xast.TNum}, {Local: "s", T: xast.TStr}, {Local: "and", T: xast.TNum}, {Prefix: "p", Local: "v", T: xast.TStr}, {Local: "x-1", T: xast.TNum}, {Local: "नाम", T: xast.TNum}, {Prefix: "p", Local: "col·lecció", T: xast.TNum}}}
 	funcs := map[string]bool{}
 	for k := range xast.AllFuncs {
